@@ -524,7 +524,8 @@ MANIFEST = {
     "are checked: EngineStarted/EngineStopped only after all hosts finished, every started node stopped exactly once with stop->flush->cleanup (cleanup honours "
     "preserve), start failures and daemon departures reach race control instead of hanging, external clusters untouched. The convention also holds members that are no "
     "target hosts. A second workload class drives the real ProcessLauncher.stop / Mechanic.stop_engine over scripted process states (all sequences of <= 3 nodes): every node "
-    "is asked to stop, its system metrics are stored exactly once, telemetry is detached, a process that refuses to die is killed.",
+    "is asked to stop, its system metrics are stored exactly once, telemetry is detached, a process that refuses to die is killed. A third class drives the real ProcessLauncher.start with the real telemetry devices "
+    "over node processes that are alive or already gone when the telemetry attaches: a dead node must fail the start.",
     "note": "Supplier/provisioner (and, in the actor class, the launcher) are stand-ins; Thespian model as in C01; convention notices come from the admin.",
     "technique": "runtime monitor: trace checker over reply messages and an ordered call log of the real mechanic actors under enumerated faults and message orders",
     "engines": ["vclock", "simactor"],
